@@ -1,0 +1,42 @@
+//go:build verif
+// +build verif
+
+package bfe_spdy
+
+import (
+	"net"
+	"time"
+
+	http "github.com/bfenetworks/bfe/bfe_http"
+)
+
+// VerifC40Serve runs a real SPDY server connection (handleConn + serve) on c with handler h, the way
+// server_test.go builds one; the returned channel is closed when serve returns (hook for the verification
+// harness of C40; build tag verif; add-only).
+func VerifC40Serve(c net.Conn, h http.Handler, maxStreams uint32) <-chan struct{} {
+	conf := &Server{MaxConcurrentStreams: maxStreams}
+	hs := &http.Server{ReadTimeout: time.Hour, GracefulShutdownTimeout: time.Hour}
+	sc := conf.handleConn(hs, c, h)
+	done := make(chan struct{})
+	go func() {
+		sc.serve()
+		close(done)
+	}()
+	return done
+}
+
+// VerifC40FlowAdd runs flow.add(n) on a flow holding n0 and returns the new value and the result.
+func VerifC40FlowAdd(n0, n int32) (int32, bool) {
+	f := flow{n: n0}
+	ok := f.add(n)
+	return f.n, ok
+}
+
+// VerifC40FlowTake runs take(n) on a stream flow (s) linked to a connection flow (c); panics like the real one.
+func VerifC40FlowTake(s, c, n int32) (int32, int32, int32) {
+	cf := flow{n: c}
+	f := flow{n: s, conn: &cf}
+	av := f.available()
+	f.take(n)
+	return f.n, cf.n, av
+}
